@@ -166,6 +166,7 @@ var props = map[string]*prop{
 		level: "exploration",
 		jobs: []job{
 			regress,
+			{name: "concurrent", run: "^TestC07_Concurrent$", weight: 8},
 			{name: "children", run: "^TestC07_Children$", shards: [2]int{8, 16}, checks: [2]int{30, 1500}},
 			{name: "inprocess", run: "^TestC07_InProcess$"},
 		},
